@@ -271,13 +271,15 @@ class PrettyPrinter:
 
         lines = []
 
-        def depth(iterable):
+        def is_pair(p):
+            # a part of a multipart feature can be empty, a pair can not
             return (
-                isinstance(iterable, (tuple, list))
-                and max(map(depth, iterable), default=0) + 1
+                isinstance(p, (tuple, list))
+                and len(p) > 0
+                and not isinstance(p[0], (tuple, list))
             )
 
-        if depth(root_list) <= 2:
+        if all(is_pair(p) for p in root_list):
             # single set of points only
             root_list = [root_list]
 
